@@ -714,7 +714,7 @@ func (f *transformationCallable) Call(argv []reflect.Value) (reflect.Value, erro
 			continue
 		}
 
-		if err := f.updateEntries(item); err != nil {
+		if err := f.updateEntries(item, owned); err != nil {
 			return undefined, err
 		}
 
@@ -763,7 +763,7 @@ func (f *transformationCallable) validateArgs(argv []reflect.Value) error {
 	return nil
 }
 
-func (f *transformationCallable) updateEntries(item reflect.Value) error {
+func (f *transformationCallable) updateEntries(item reflect.Value, owned map[uintptr]bool) error {
 
 	updates, err := eval(f.updates, item, f.env)
 	if err != nil || updates == undefined {
@@ -776,10 +776,51 @@ func (f *transformationCallable) updateEntries(item reflect.Value) error {
 	}
 
 	for _, key := range updates.MapKeys() {
-		item.SetMapIndex(key, updates.MapIndex(key))
+
+		val := updates.MapIndex(key)
+
+		// A value that contains an object of the copy (e.g. the
+		// object being updated itself, |$|{"self": $}|) is inserted
+		// as a snapshot. Inserting it as it is would make the
+		// result cyclic: it could no longer be encoded as JSON and
+		// walking it (**, $string) would not terminate.
+		if sharesMaps(val, owned) {
+			if val, err = f.clone(val); err != nil {
+				return newEvalError(ErrClone, nil, nil)
+			}
+		}
+
+		item.SetMapIndex(key, val)
 	}
 
 	return nil
+}
+
+// sharesMaps reports whether a map recorded in owned is reachable
+// from v.
+func sharesMaps(v reflect.Value, owned map[uintptr]bool) bool {
+
+	v = jtypes.Resolve(v)
+
+	switch {
+	case jtypes.IsMap(v):
+		if owned[v.Pointer()] {
+			return true
+		}
+		for _, k := range v.MapKeys() {
+			if sharesMaps(v.MapIndex(k), owned) {
+				return true
+			}
+		}
+	case jtypes.IsArray(v):
+		for i := 0; i < v.Len(); i++ {
+			if sharesMaps(v.Index(i), owned) {
+				return true
+			}
+		}
+	}
+
+	return false
 }
 
 func (f *transformationCallable) deleteEntries(item reflect.Value) error {
